@@ -291,9 +291,10 @@ Fixpoint mon_hfp (t : Z) (H : Z) (hs : bool) (rd : bool) (resident : bool) (owne
       ok && mon_hfp t1 H hs rd1 resident1 owner1 mark1 clean1 cur r
   end.
 
-(** C18: when a purge (successful delete) is issued while nothing is in flight
-    or parked, the store holds nothing afterwards and the next request goes to
-    the upstream as the fetcher *)
+(** C18 / C10: when a purge is issued while nothing is in flight or parked,
+    the store holds nothing afterwards if its delete succeeded, and — whenever
+    the store holds nothing, also after a failed delete — the next request goes
+    to the upstream as the fetcher *)
 Fixpoint mon_purge (armed : bool) (prev : list tobs) (fs : list frame) : bool :=
   match fs with
   | [] => true
@@ -310,6 +311,9 @@ Fixpoint mon_purge (armed : bool) (prev : list tobs) (fs : list frame) : bool :=
         end in
       let armed1 := match f_op f with
                     | OpPurge true => quiet
+                    (* the store delete failed: the entry is gone from memory all the same; when the store
+                       holds nothing for the key the next request cannot be served without the upstream *)
+                    | OpPurge false => quiet && match f_store f with SoNone => true | _ => false end
                     | OpArrive true | OpTick _ | OpFaults _ _ => armed
                     | _ => false
                     end in
